@@ -9,6 +9,7 @@ import PysersicModel.Driver.SkyEstimate
 import PysersicModel.Driver.Validate
 import PysersicModel.Driver.Results
 import PysersicModel.Driver.Loss
+import PysersicModel.Driver.Render
 
 open Pysersic
 
@@ -28,6 +29,13 @@ def dispatch (line : String) : String :=
     | "rs" => Driver.resultsFate args
     | "wrap" => Driver.wrapCmd args
     | "loss" => Driver.lossCmd args
+    | "render" => Driver.renderCmd args
+    | "triple" => Driver.tripleCmd args
+    | "psffft" => Driver.psfFftCmd args
+    | "conv" => Driver.convCmd args
+    | "decomp" => Driver.decompCmd false args
+    | "decompd" => Driver.decompCmd true args
+    | "sigpsf" => Driver.sigPsfCmd args
     | _ => "bad-op " ++ cmd
 
 partial def loop (h : IO.FS.Stream) (out : IO.FS.Stream) : IO Unit := do
